@@ -180,6 +180,14 @@ func checkC03(c *Ctx, w *World) {
 		c.check(good, "C03.quiet", "newSubConnLocked: creation", p.ipos(call), "every scStates entry is scanned first and an Idle or Connecting one makes the function return without creating", why)
 	}
 
+	// ---- premises checked by sibling properties, re-evaluated here because C03's clauses depend on them:
+	//  * "exactly max(1, minSize) channels after the first update" needs the effective minSize to be the supplied one
+	//    (only a zero becomes 1): the defaulting rules of C17;
+	//  * "never removes a connection other than the old connection of a completed refresh" needs the swap to run once per
+	//    replacement: the take-over rules of C07 (the replacement is unregistered, the slot points at it, the flag is cleared).
+	importPremises(c, w, "C17", checkC17, []string{"C17.defaults"}, "C03.min-config")
+	importPremises(c, w, "C07", checkC07, []string{"C07.swap"}, "C03.swap-once")
+
 	// ---- C03.remove
 	rm := pl.ifaceCallSites("balancer.ClientConn.RemoveSubConn")
 	c.floor("C03.remove", len(rm), 1)
@@ -316,4 +324,32 @@ func everyReturnAfter(fn *ssa.Function, call ssa.Instruction) bool {
 		}
 	}
 	return true
+}
+
+// importPremises runs a sibling property's rule set in a private context and re-reports, under this property's rule
+// name, every obligation of the named families (ok ones as ok, failing ones as failing).
+func importPremises(c *Ctx, w *World, prop string, fn func(*Ctx, *World), families []string, as string) {
+	sub := newCtx(prop, c.Tier, c.Repo, c.Verif)
+	func() {
+		defer func() {
+			if r := recover(); r != nil {
+				sub.fatalf("panic: %v", r)
+			}
+		}()
+		fn(sub, w)
+	}()
+	n := 0
+	for _, o := range sub.Obs {
+		for _, fam := range families {
+			if o.Rule != fam {
+				continue
+			}
+			n++
+			c.add(as, o.Rule+" @ "+o.Construct, o.Status, o.Pos, o.Detail, o.Nontrivial)
+		}
+	}
+	for _, f := range sub.fatal {
+		c.fail(as, "premise "+prop, "-", f)
+	}
+	c.floor(as, n, 1)
 }
